@@ -79,8 +79,10 @@ func rowListToMap(rows []types.RowImage, primaryKeyList []string) map[string]map
 					if firstUnderline && i > 0 {
 						rowKey += "_##$$_"
 					}
-					// todo make value more accurate
-					rowKey = fmt.Sprintf("%v%v", rowKey, column.GetActualValue())
+					// every key value carries its length, so that the joined text of a composite key is
+					// unambiguous whatever the values contain (("a_##$$_b","c") is not ("a","b_##$$_c"))
+					keyText := fmt.Sprintf("%v", column.GetActualValue())
+					rowKey = fmt.Sprintf("%v%d:%v", rowKey, len(keyText), keyText)
 					firstUnderline = true
 				}
 			}
